@@ -64,8 +64,9 @@ type vOp struct {
 	Arrival []int    `json:"arrival"` // arrival order (indexes into events; may repeat)
 	// Fail is parallel to Arrival: 0 = plain Add; 1 = the first write transaction of Add fails; 2 = a stop between
 	// the two write transactions (second never runs); 3 = the second write transaction runs and is rolled back;
-	// 4 = the store object is re-created (restart) before a plain Add. Adds with 1..3 return an error and the
-	// generator always re-delivers the event later.
+	// 4 = the store object is re-created (restart) before a plain Add; 100+k = the k-th shelf operation of this Add
+	// fails with a storage error. Adds with 1..3 / 100+k return an error and the generator always re-delivers the
+	// event later.
 	Fail    []int    `json:"fail,omitempty"`
 	Times   []int64  `json:"times"`   // resolve times to probe
 	Probes  []vProbe `json:"probes,omitempty"`
@@ -496,21 +497,87 @@ func vNewStore(t *testing.T, path string) (*store, stoabs.KVStore) {
 }
 
 // vFailDB injects a failure into the k-th Write call: mode 1 = the call fails without running, mode 3 = the call
-// runs and is rolled back (the function's work is discarded by returning an error from inside the transaction).
+// runs and is rolled back (the function's work is discarded by returning an error from inside the transaction),
+// mode 5 = the opAt-th shelf operation (Get/Put/Delete, counted over all write transactions of this Add) fails with a
+// storage error that is not ErrKeyNotFound.
 type vFailDB struct {
 	stoabs.KVStore
 	calls  int
 	failAt int
 	mode   int
+	ops    int
+	opAt   int
+	fired  bool
 }
 
 var vErrInjected = errors.New("verif: injected storage failure")
 
+func (f *vFailDB) tick() bool {
+	f.ops++
+	if f.ops == f.opAt {
+		f.fired = true
+		return true
+	}
+	return false
+}
+
+type vFailTx struct {
+	stoabs.WriteTx
+	f *vFailDB
+}
+
+func (t vFailTx) GetShelfWriter(n string) stoabs.Writer {
+	return vFailW{Writer: t.WriteTx.GetShelfWriter(n), f: t.f}
+}
+func (t vFailTx) GetShelfReader(n string) stoabs.Reader {
+	return vFailR{Reader: t.WriteTx.GetShelfReader(n), f: t.f}
+}
+
+type vFailW struct {
+	stoabs.Writer
+	f *vFailDB
+}
+
+func (w vFailW) Get(k stoabs.Key) ([]byte, error) {
+	if w.f.tick() {
+		return nil, vErrInjected
+	}
+	return w.Writer.Get(k)
+}
+func (w vFailW) Put(k stoabs.Key, v []byte) error {
+	if w.f.tick() {
+		return vErrInjected
+	}
+	return w.Writer.Put(k, v)
+}
+func (w vFailW) Delete(k stoabs.Key) error {
+	if w.f.tick() {
+		return vErrInjected
+	}
+	return w.Writer.Delete(k)
+}
+
+type vFailR struct {
+	stoabs.Reader
+	f *vFailDB
+}
+
+func (r vFailR) Get(k stoabs.Key) ([]byte, error) {
+	if r.f.tick() {
+		return nil, vErrInjected
+	}
+	return r.Reader.Get(k)
+}
+
 func (f *vFailDB) Write(ctx context.Context, fn func(stoabs.WriteTx) error, opts ...stoabs.TxOption) error {
 	f.calls++
+	if f.mode == 5 {
+		return f.KVStore.Write(ctx, func(tx stoabs.WriteTx) error { return fn(vFailTx{WriteTx: tx, f: f}) }, opts...)
+	}
 	if f.calls != f.failAt {
 		return f.KVStore.Write(ctx, fn, opts...)
 	}
+	f.fired = true
 	if f.mode == 1 {
 		return vErrInjected
 	}
@@ -522,19 +589,27 @@ func (f *vFailDB) Write(ctx context.Context, fn func(stoabs.WriteTx) error, opts
 	}, opts...)
 }
 
-// vAddFailing runs store.Add with a failure injected as the op's fail code says (see vOp.Fail)
-func vAddFailing(s *store, e vGenEvent, code int) (err error) {
+// vAddFailing runs store.Add with a failure injected as the op's fail code says (see vOp.Fail); fired tells whether
+// the failure actually happened (a shelf-operation number beyond what this Add performs never fires)
+func vAddFailing(s *store, e vGenEvent, code int) (err error, fired bool) {
 	real := s.db
 	defer func() { s.db = real }()
-	switch code {
-	case 1:
-		s.db = &vFailDB{KVStore: real, failAt: 1, mode: 1}
-	case 2:
-		s.db = &vFailDB{KVStore: real, failAt: 2, mode: 1}
-	case 3:
-		s.db = &vFailDB{KVStore: real, failAt: 2, mode: 3}
+	var f *vFailDB
+	switch {
+	case code == 1:
+		f = &vFailDB{KVStore: real, failAt: 1, mode: 1}
+	case code == 2:
+		f = &vFailDB{KVStore: real, failAt: 2, mode: 1}
+	case code == 3:
+		f = &vFailDB{KVStore: real, failAt: 2, mode: 3}
+	case code > 100:
+		f = &vFailDB{KVStore: real, mode: 5, opAt: code - 100}
 	}
-	return s.Add(e.doc, e.tx)
+	if f != nil {
+		s.db = f
+	}
+	err = s.Add(e.doc, e.tx)
+	return err, f != nil && f.fired
 }
 
 func vToOpEvents(evs []vGenEvent) ([]vEvent, []int64, map[string]did.DID) {
@@ -755,12 +830,17 @@ func TestVerifC10(t *testing.T) {
 						addErrs += fmt.Sprintf("addpanic@%d(ev%d) ", pos, k)
 					}
 				}()
-				err := vAddFailing(s, evs[k], code)
+				err, fired := vAddFailing(s, evs[k], code)
+				if code != 0 && !fired && pos < len(fail) {
+					fail[pos] = 0 // the failure point was never reached: this was a plain Add
+					code = 0
+				}
 				switch {
 				case code == 0 && err != nil:
 					// an accepted transaction that the store refuses in this arrival order is an observable outcome
 					addErrs += fmt.Sprintf("adderr@%d(ev%d) ", pos, k)
 				case code != 0 && err == nil:
+					// a storage error inside Add that is not reported: the DAG would never deliver the event again
 					addErrs += fmt.Sprintf("addswallowed@%d(ev%d) ", pos, k)
 				}
 			}()
@@ -870,6 +950,9 @@ func TestVerifC10(t *testing.T) {
 				for k := 1 + rng.Intn(2); k > 0; k-- {
 					pos := rng.Intn(len(arrival))
 					code := 1 + rng.Intn(4)
+					if rng.Intn(2) == 0 {
+						code = 101 + rng.Intn(24)
+					}
 					if fail[pos] != 0 {
 						continue
 					}
